@@ -15,7 +15,7 @@ PROBES = [
     "partial-last-block-before-EOF", "start>0", "sub-byte", "skipback-mid-regime", "skipback-low-regime",
     "overlap-only-block", "K1", "K2", "K3-abandon-then-plan", "K4", "A1", "A2", "A3", "A4", "A5",
     "must-reject", "fault-inside-plan:R1", "fault-inside-plan:R2", "fault-inside-plan:R3", "fault-inside-plan:R4",
-    "plan-after-fault-exact", ">=3-blocks", "nsamps=0", "big-blocks", "read_block-between-plans",
+    "plan-after-fault-exact", ">=3-blocks", "nsamps=0", "big-blocks", "read_block-between-plans", "held-block-rechecked",
 ]
 COMPONENTS = {
     "real": ["sigpyproc.readers.FilReader.read_plan", "sigpyproc.io.fileio.FileReader.creadinto/seek/eos",
